@@ -82,8 +82,10 @@ impl<T> RawTable<T> {
             self.table.erase(item.bucket);
         } else if let Some(ref mut lo) = self.leftovers {
             lo.reflect_remove(&item.bucket);
-            lo.table.erase(item.bucket);
-            lo.refresh_if_zst();
+            // `erase` drops the element in place; if that destructor panics the rebuild of
+            // the cached iterator for zero-sized `T` must still happen.
+            let lo = RefreshIfZstOnDrop(lo);
+            lo.0.table.erase(item.bucket);
         } else {
             unreachable!("invalid bucket state");
         }
